@@ -269,9 +269,14 @@ class SymCtx:
                 r, m, secs, be = solver.check_sat([x for x, _ in self.path.facts] + self.path.pc, self.ex.budget)
                 self.vcs.append(VC(name, r, secs, be, pid, m, "goal is False on this path"))
             return
+        if self.ex.stop_after_failure and self.ex.failed:
+            self.vcs.append(VC(name, "skipped", 0.0, "not attempted after an earlier VC of this instance failed", pid))
+            return
         forms = [x for x, _ in self.path.facts] + self.path.pc + [z3.Not(f)]
         r, m, secs, be = solver.check_sat(forms, self.ex.budget)
         self.vcs.append(VC(name, r, secs, be, pid, m))
+        if r != "unsat":
+            self.ex.failed = True
 
     def lemma(self, goal, name, premises=None):
         """ghost assertion: prove `goal` (from the given premises only, or from all facts of the path), then make
@@ -355,10 +360,14 @@ class Explorer:
         self.unknown_feasibility = False
         self.order_sampled = False
         self.collect_only = False
+        self.failed = False
+        self.stop_after_failure = True
 
     def run(self):
         t0 = time.time()
         while self.pending:
+            if self.failed and self.stop_after_failure:
+                break
             trace = self.pending.pop()
             self.path_counter += 1
             if self.path_counter > self.max_paths:
